@@ -421,6 +421,21 @@ def cross(a, b, axis=None):
         return a[0]*b[1]-a[1]*b[0]
     raise ValueError('incompatible dimensions for cross product\n(dimension must be 2 or 3)')
 def trace(a): return _np.trace(_to_obj(a))
+def fmod(x, m):
+    """C fmod: the remainder has the sign of x (x - m*trunc(x/m)); modelled through the floor modulus"""
+    if isinstance(x, (SArray, list, tuple)):
+        o = _to_obj(x); out = _np.empty(o.shape, dtype=object)
+        for idx in _np.ndindex(o.shape): out[idx] = fmod(o[idx], m)
+        return SArray(out)
+    x = SReal.lift(x)
+    if x.is_const() and not isinstance(m, SReal):
+        import math as _m
+        return SReal.lift(_m.fmod(float(x.const()), float(m)))
+    am = m if not isinstance(m, SReal) else sc.sabs(m)
+    if not isinstance(m, SReal): am = abs(m)
+    if x >= 0:
+        return sc.mod(x, am)
+    return -sc.mod(-x, am)
 def isclose(a, b, rtol=1e-5, atol=1e-8):
     return sc.sabs(SReal.lift(a) - SReal.lift(b)) <= atol + rtol * sc.sabs(SReal.lift(b))
 def allclose(a, b, rtol=1e-5, atol=1e-8):
@@ -736,6 +751,11 @@ def make_math():
                 setattr(mm, k, mk(rf, k))
             else:
                 setattr(mm, k, rf)
+    def mfmod(x, y):
+        if isinstance(x, SReal) and not x.is_const() or isinstance(y, SReal) and not y.is_const():
+            return fmod(x, y)
+        return rmath.fmod(float(x) if isinstance(x, SReal) else x, float(y) if isinstance(y, SReal) else y)
+    mm.fmod = mfmod
     def _ga(name):
         if name == 'pi': return sc.pi()
         raise Unsupported('math.%s is not modelled by the pv shim (unsupported dependency call)' % name)
